@@ -68,11 +68,17 @@ type l1World struct {
 	paid  map[string]int // bridge/leaf -> successful finalisations
 	avoidKnown bool
 	lastRes *abci.ResponseFinalizeBlock
+	ownAll   bool // C16 after a re-import: every deviation from the model is a deviation from the original chain
+	replicas []*l1Replica
+	genesis  *node.L1Genesis
 }
 
 var simEpoch = time.Date(2026, 1, 1, 0, 0, 0, 0, time.UTC)
 
 func (w *l1World) own(owners []string) bool {
+	if w.ownAll {
+		return true
+	}
 	for _, o := range owners {
 		if o == w.p.Prop {
 			return true
@@ -129,6 +135,7 @@ func newL1World(r *core.Run, p *l1Profile) *l1World {
 		gen.Ophost = og
 		w.m.RegFee = og.Params.RegistrationFee
 	}
+	w.genesis = gen
 	w.n = node.NewL1(w.db, gen)
 	w.enc = w.n.Enc
 	for _, port := range []string{"transfer", "nft-transfer"} {
@@ -904,6 +911,11 @@ func (w *l1World) execBlock(bc blockCtx, txs []pendingTx, stub []node.StubOp, cr
 	w.n.Commit()
 	if crash == "after-commit" {
 		w.restart(crash)
+	}
+	if len(w.replicas) > 0 {
+		if v := w.runReplicas(bc, raw, stub, res); v != nil {
+			return v
+		}
 	}
 	r.SimNS += int64(T.Sub(w.now))
 	w.now = T
